@@ -65,7 +65,10 @@ fn c22(seed: u64, case: u64, out: &Out) {
     match scenario {
         0 => {
             let busy = rng.usize(1, 3);
-            out.begin(case, jobj! {"scenario" => "busy coroutines on one thread, each spinning until the next one in the chain has finished; the last link is a trivial sibling", "busy_coroutines" => busy});
+            // what a busy coroutine does before it starts to spin: the slice it was granted must not shield what comes after
+            let prelude = (case / 4) % 4;
+            out.begin(case, jobj! {"scenario" => "busy coroutines on one thread, each spinning until the next one in the chain has finished; the last link is a trivial sibling", "busy_coroutines" => busy,
+                "before_spinning" => ["nothing", "a short system call (Running -> Syscall -> Running)", "an early cooperative yield", "an early yield and a short system call"][prelude as usize]});
             let w = Watch::default();
             let mut sch = Scheduler::new(format!("c22-{seed}-{case}"), 128 * 1024);
             sch.add_listener(w.clone());
@@ -75,7 +78,15 @@ fn c22(seed: u64, case: u64, out: &Out) {
                 let (next, mine, b) = (flags[i + 1].clone(), flags[i].clone(), burned.clone());
                 let _ = sch
                     .submit_co(
-                        move |_, ()| {
+                        move |sus: &SchedulableSuspender, ()| {
+                            if prelude >= 2 {
+                                sus.suspend();
+                            }
+                            if prelude % 2 == 1 {
+                                let co = SchedulableCoroutine::current().expect("current");
+                                co.syscall((), SyscallName::write, SyscallState::Executing).expect("enter call");
+                                co.running().expect("leave call");
+                            }
                             // spins without ever yielding until the next coroutine in the chain has run
                             let start = thread_cpu_ns();
                             let mut x = 0u64;
